@@ -180,7 +180,7 @@ CHECKS["C08"] = dict(
     assumptions=["invalid configurations are generated only before a service's first valid one (what should happen to a running processor on an invalid update is not stated)",
                  "a service that has only ever received removal-only endpoint updates is accepted with or without a processor (ambiguous in the statement)"],
     parts=[
-        dict(name="converge", test="TestConverge", kind="rapid", checks={"quick": 2500, "thorough": 100000}, shards=16, timeout={"quick": 600, "thorough": 3000}),
+        dict(name="converge", test="TestConverge", kind="rapid", crash_is_violation=True, checks={"quick": 2500, "thorough": 100000}, shards=16, timeout={"quick": 600, "thorough": 3000}),
     ],
 )
 
